@@ -999,7 +999,11 @@ func (sql *SqliteDb) replayChangelog(tree *Tree, toVersion int64, targetHash []b
 			if err != nil {
 				return err
 			}
-			if _, err = tree.Set(node.key, node.hash); err != nil {
+			// during a replay Set takes the leaf hash; the value stored with the leaf goes along
+			tree.replayValue = node.value
+			_, err = tree.Set(node.key, node.hash)
+			tree.replayValue = nil
+			if err != nil {
 				return err
 			}
 			if sequence != int(tree.leafSequence) {
